@@ -154,7 +154,7 @@ impl NatTy {
             NatTy::Usize => usize::BITS as usize,
         }
     }
-    pub fn max(self) -> u128 {
+    pub fn maxv(self) -> u128 {
         if self.bits() == 128 {
             u128::MAX
         } else {
@@ -173,7 +173,7 @@ impl NatTy {
     }
 }
 
-/// A native unsigned integer of a given type (value always `<= ty.max()`).
+/// A native unsigned integer of a given type (value always `<= ty.maxv()`).
 #[derive(Clone, Copy, Debug, PartialEq, Eq, Hash, Serialize, Deserialize)]
 pub struct Nat {
     pub ty: NatTy,
@@ -183,8 +183,23 @@ pub struct Nat {
 
 impl Nat {
     pub fn new(ty: NatTy, v: u128) -> Nat {
-        Nat { ty, v: v & ty.max() }
+        Nat { ty, v: v & ty.maxv() }
     }
+}
+
+/// `natty_match!(ty, T => expr)`: run `expr` with the type alias `T` bound to the native type `ty`.
+#[macro_export]
+macro_rules! natty_match {
+    ($t:expr, $T:ident => $body:expr) => {
+        match $t {
+            $crate::NatTy::U8 => { type $T = u8; $body }
+            $crate::NatTy::U16 => { type $T = u16; $body }
+            $crate::NatTy::U32 => { type $T = u32; $body }
+            $crate::NatTy::U64 => { type $T = u64; $body }
+            $crate::NatTy::U128 => { type $T = u128; $body }
+            $crate::NatTy::Usize => { type $T = usize; $body }
+        }
+    };
 }
 
 /// `nat_match!(nat, k => expr)`: run `expr` with `k` bound to the value as its concrete native type.
@@ -318,6 +333,10 @@ pub trait Subject: BitVector + Send + Sync + 'static {
     fn rebuild_inner(&self) -> Option<Self>;
     /// Storage mode for `Bv` (`Some(true)` = heap); `None` for other types. Classification only.
     fn is_heap(&self) -> Option<bool>;
+    /// Use `self` as the RIGHT operand of same-type `|=` and `+=` on a fresh all-zero vector of
+    /// length `l >= self.len()`; both results must be `self` zero-extended. (Same-type operators
+    /// read the right operand's storage words directly, so this observes them.)
+    fn rhs_probe(&self, l: usize) -> (Self, Self);
 }
 
 macro_rules! shift_body {
@@ -404,6 +423,13 @@ macro_rules! impl_subject_fixed {
                 let (d, l) = self.clone().into_inner();
                 Some(<$T>::new(d, l))
             }
+            fn rhs_probe(&self, l: usize) -> (Self, Self) {
+                let mut o = <Self as BitVector>::zeros(l);
+                o |= self;
+                let mut a = <Self as BitVector>::zeros(l);
+                a += self;
+                (o, a)
+            }
             fn is_heap(&self) -> Option<bool> { None }
         }
     )+};
@@ -447,6 +473,13 @@ impl Subject for Bvd {
         let (d, l) = self.clone().into_inner();
         Some(Bvd::new(d, l))
     }
+    fn rhs_probe(&self, l: usize) -> (Self, Self) {
+        let mut o = <Self as BitVector>::zeros(l);
+        o |= self;
+        let mut a = <Self as BitVector>::zeros(l);
+        a += self;
+        (o, a)
+    }
     fn is_heap(&self) -> Option<bool> { None }
 }
 
@@ -475,6 +508,13 @@ impl Subject for Bv {
         shift_body!(self, left, amt, form)
     }
     fn rebuild_inner(&self) -> Option<Self> { None }
+    fn rhs_probe(&self, l: usize) -> (Self, Self) {
+        let mut o = <Self as BitVector>::zeros(l);
+        o |= self;
+        let mut a = <Self as BitVector>::zeros(l);
+        a += self;
+        (o, a)
+    }
     fn is_heap(&self) -> Option<bool> { Some(matches!(self, Bv::Dynamic(_))) }
 }
 
